@@ -179,7 +179,16 @@ func (n *Node) start() *Inst {
 		return inst
 	}
 	if inst.srv == nil || !inst.srv.loadedAndReady.Load() {
-		// boot may need the lock (follower) or time; let the caller drive it
+		// Either the boot failed and Serve is on its way out (its deferred shutdown steps need
+		// virtual time to pass), or it needs the lock. Give a failing boot the time to return,
+		// so that its error is known, inside a quiet region (fixed cost in steps and time).
+		s.quiet(400, 3*time.Second, func() {
+			s.Drain(2500*time.Millisecond, func() bool { return inst.stopped || inst.ready() })
+		})
+		if inst.stopped {
+			s.logf("node %s failed to start: %v", n.name, inst.serveErr)
+			return inst
+		}
 		s.logf("node %s booting (not ready yet)", n.name)
 	}
 	inst.noDigest = false
